@@ -94,7 +94,7 @@ func (p *Packet) Length() int {
 
 // Frames returns the number of data frames in the packet
 func (p *Packet) Frames() int {
-	if p.shape == nil {
+	if p.shape == nil || p.format == nil {
 		return 0
 	}
 	nchan := 1
@@ -103,8 +103,12 @@ func (p *Packet) Frames() int {
 			nchan *= int(s)
 		}
 	}
-
-	return int(p.payloadLength) / (p.format.wordlen * nchan)
+	// A format with no data components (or an absurd shape) has no frames.
+	bytesPerFrame := p.format.wordlen * nchan
+	if bytesPerFrame <= 0 {
+		return 0
+	}
+	return int(p.payloadLength) / bytesPerFrame
 }
 
 // SequenceNumber returns the packet's internal sequenceNumber
@@ -157,6 +161,9 @@ func (p *Packet) ResetTimestamp() error {
 func (p *Packet) MakePretendPacket(seqnum uint32, nchan int) *Packet {
 	pretend := *p
 	pretend.sequenceNumber = seqnum
+	if nchan <= 0 {
+		nchan = 1
+	}
 	switch d := p.Data.(type) {
 	case []int16:
 		x := make([]int16, len(d))
@@ -194,7 +201,8 @@ func (p *Packet) ReadValue(sample int) int {
 	case []int64:
 		return int(d[sample])
 	default:
-		panic("Oh no! Type of d is not known in Packet.ReadValue()")
+		// Payloads of other types (e.g. multi-component formats) hold no single sample values.
+		return 0
 	}
 }
 
@@ -325,6 +333,9 @@ func (p *Packet) Bytes() []byte {
 // ChannelInfo returns the number of channels in this packet, and the first one
 func (p *Packet) ChannelInfo() (nchan, offset int) {
 	nchan = 1
+	if p.shape == nil {
+		return nchan, int(p.offset)
+	}
 	for _, s := range p.shape.Sizes {
 		if s > 0 {
 			nchan *= int(s)
